@@ -3,7 +3,7 @@
    The end-to-end statement (directives still evaluate, same unwind state at every surviving instruction) is decided on the
    implementation with its own evaluator (the subject of C15) by harness/c08.py. *)
 From Coq Require Import ZArith List Bool Arith.
-From GR Require Import Base.Result IR.State IR.Modify IR.Edit IR.Cfi IR.CfiView IR.CfgClosedInsert IR.CfiInsert IR.FindingsGen CfiEval.Model.
+From GR Require Import Base.Result IR.State IR.Modify IR.Edit IR.Cfi IR.CfiView IR.CfgClosedInsert IR.CfiInsert IR.FindingsGen IR.CfiTracker IR.CfiTrackerProofs CfiEval.Model.
 From Coq Require Import String.
 Import ListNotations.
 Open Scope Z_scope.
@@ -113,3 +113,33 @@ Theorem C08_def_cfa_dropped_with_the_entry_instruction_refuted :
   exists s', H1.final = Some s' /\ cfi_verdict s' h1_names 0 = Some CFIStateErr /\
     cfi_get (cfi H1.W_state) 2 0 = [(DStart, 6); (DOther, 7)] /\ cfi_get (cfi s') 3 0 = [(DStart, 6)].
 Proof. split; [vm_compute; reflexivity|]. eexists. split; [vm_compute; reflexivity|]. repeat split; vm_compute; reflexivity. Qed.
+
+(* ---- which patches keep their own CFI directives: the procedure tracker of RewritingContext (IR/CfiTracker.v, run against
+        _CFIProcedureTracker on random directive tables) ---- *)
+(* a point counts as inside iff it lies between the start and the end of a recorded procedure, both ends included: code inserted at
+   the very end of a procedure stays inside it, and so do its directives *)
+Theorem C08_inside_a_procedure_is_a_closed_interval : forall ivs p,
+  (forall s e, In (s, e) ivs -> plt s e = true) ->
+  (in_procedure ivs p = true <-> exists s e, In (s, e) ivs /\ ple s p = true /\ ple p e = true).
+Proof. exact in_procedure_closed. Qed.
+
+Theorem C08_the_very_end_of_a_procedure_is_inside : forall ivs s e, In (s, e) ivs -> in_procedure ivs e = true.
+Proof. exact in_procedure_end. Qed.
+
+(* the recorded procedures are pairs of a .cfi_startproc and a .cfi_endproc of the table at different points (a procedure that lost
+   all its code is none) *)
+Theorem C08_recorded_procedures_are_the_tables : forall l s e,
+  In (s, e) (tracker l) -> In (s, MStart) l /\ In (e, MEnd) l /\ s <> e.
+Proof. exact tracker_records_procedures. Qed.
+
+(* on a well-formed table the recorded procedures are exactly the table's procedures that have any code, in order (the start the
+   code keeps remembering after a .cfi_endproc is never used) *)
+Theorem C08_well_formed_tables_give_their_procedures : forall l, wf false l = true -> tracker l = procedures None l.
+Proof. exact tracker_of_a_well_formed_table. Qed.
+
+Example C08_tracker_example :
+  let l := [((0%nat, 0), MStart); ((0%nat, 2), MOther); ((1%nat, 4), MEnd); ((2%nat, 0), MStart); ((2%nat, 0), MEnd)] in
+  tracker l = [((0%nat, 0), (1%nat, 4))] /\
+  in_procedure (tracker l) (1%nat, 4) = true /\ in_procedure (tracker l) (0%nat, 0) = true /\
+  in_procedure (tracker l) (2%nat, 0) = false /\ in_procedure (tracker l) (1%nat, 5) = false.
+Proof. vm_compute. repeat split. Qed.
